@@ -175,8 +175,9 @@ Definition f_add_preceding (x : nid) (n : cloose) (inh : str) (e : cel) : option
 Definition f_bind_data (p : nid) (n : cloose) (inh : str) (e : cel) : option (cel * minfo) :=
   match e, n with
   | CEl i k own data kids, LText t =>
-      (* `target._data_node = self`: whatever hung off the text slot before is no longer reachable (finding 29) *)
-      if N.eqb i p && is_ktag k then Some (CEl i k own (chain_of [t]) kids, (in_scope inh own, null (chain_texts data))) else None
+      (* TagNode.__add_first_child: `_bind_to_data` on an empty slot, `_prepend_text_node` in front of a text the
+         ambient filters hide -- either way the new text becomes the head of the data chain *)
+      if N.eqb i p && is_ktag k then Some (CEl i k own (chain_of (t :: chain_texts data)) kids, (in_scope inh own, true)) else None
   | _, _ => None
   end.
 Definition f_append_el (p : nid) (n : cloose) (inh : str) (e : cel) : option (cel * minfo) :=
